@@ -49,7 +49,10 @@ throw_libdw (int dwerr = 0)
 {
   if (dwerr == 0)
     dwerr = dwarf_errno ();
-  assert (dwerr != 0);
+  // Some libdw calls fail without leaving an error code behind, e.g.
+  // dwarf_getsrcfiles on a unit whose line table it found broken before.
+  if (dwerr == 0)
+    throw std::runtime_error ("invalid DWARF (libdw gives no detail)");
   throw std::runtime_error (dwarf_errmsg (dwerr));
 }
 
